@@ -150,8 +150,11 @@ def run_part(ctx):
     merged.update({k: ({"ok": True, "changed": v.get("changed")} if v["ok"] else v) for k, v in facts.items()})
     ctx.notes["gen"] = merged
     gfacts = (facts.get("GenTargets") or {}).get("facts") or {}
-    cdata_fixed = bool(gfacts.get("s_cdata_is_characters"))
-    charlen_fixed = bool(gfacts.get("s_top_ws_test_uses_length"))
+    # when the translator cannot read the source (a rewritten body), the oracle must not assume the as-found variants
+    # (recorded findings K-C05t-1/-2 are repaired and excuse nothing): it then judges by the property text alone
+    tf_ok = bool((facts.get("GenTargets") or {}).get("ok")) and bool(gfacts)
+    cdata_fixed = bool(gfacts.get("s_cdata_is_characters")) if tf_ok else True
+    charlen_fixed = bool(gfacts.get("s_top_ws_test_uses_length")) if tf_ok else True
     ctx.notes["targets_repo_variant"] = {"s_cdata_is_characters": cdata_fixed, "s_top_ws_test_uses_length": charlen_fixed,
                                          "s_element_created_after_flush": gfacts.get("s_element_created_after_flush")}
     model, ok_m, mlog = core.build_model(PART)
